@@ -101,6 +101,29 @@ def run_exec(prop, tier, funcs, index, enums, res):
                          [t[0] for t in c08_exec.TREE], "-quit variant" if prop == "C08" else "two argument templates from %s" % c08_exec.TEMPLATES))
 
 
+def run_readers(tier, funcs, index, enums, res):
+    import c05_readers as r5
+    res["target"] = "WhitespaceDelimitedArgumentReader::next and ByteDelimitedArgumentReader::next until end of input; symbolic input bytes, symbolic read() chunking, symbolic delimiter"
+    plans = [("ws", n, r5.ALPHA_FULL) for n in (1, 2, 3, 4)] + [("bytes", n, r5.ALPHA_FULL) for n in (1, 2, 3)]
+    if tier == "thorough":
+        plans += [("ws", 5, r5.ALPHA_SMALL), ("bytes", 4, r5.ALPHA_SMALL), ("bytes", 5, r5.ALPHA_SMALL)]
+    for kind, n, alpha in plans:
+        r = r5.explore(kind, n, alpha, funcs, index, enums)
+        res["functions_executed"].update(r.pop("functions_executed"))
+        for v in r.pop("violations"):
+            res["violations"].append({"key": "%s | %s" % (kind, v["what"].split(",")[0][:40]), "summary": "%s reader, input %s, read() sizes %s%s: %s" % (
+                kind, v.get("input"), v.get("chunks"), (", delimiter %#x" % v["delimiter"]) if v.get("delimiter") is not None else "", v["what"]),
+                "replayer": "reader_bytes", "kind": kind, "input": v.get("input"), "delimiter": v.get("delimiter"), "what": v["what"]})
+        for k, c in r.pop("unsupported").items():
+            res["unsupported"][k] = res["unsupported"].get(k, 0) + c
+        r["bound"] = "%s reader, %d bytes over %d letters, %d chunkings" % (kind, n, len(alpha), len(r["chunkings"]))
+        r.pop("chunkings")
+        res["runs"].append(r)
+    res["bounds"] = ("whitespace reader: every input of 1..4 bytes over {a, blank, newline, tab, ', \", \\, 0xA0, VT, 0x85} under every way of cutting it into read() results"
+                     "%s; byte reader: every input of 1..3 bytes and every delimiter over the same alphabet%s" % (
+                         " and 5 bytes over {a, blank, newline, ', \\}" if tier == "thorough" else "", ", 4..5 bytes over 5 letters" if tier == "thorough" else ""))
+
+
 def main():
     prop, tier, out = sys.argv[1], sys.argv[2], sys.argv[3]
     t0 = time.time()
@@ -115,6 +138,8 @@ def main():
         run_startpoints(tier, funcs, index, enums, res)
     elif prop in ("C08", "C09"):
         run_exec(prop, tier, funcs, index, enums, res)
+    elif prop == "C05":
+        run_readers(tier, funcs, index, enums, res)
     else:
         raise SystemExit("no MIR-level check for " + prop)
     res["functions_executed"] = sorted(res["functions_executed"])
